@@ -2,6 +2,7 @@ package props
 
 import (
 	"bytes"
+	"encoding/base64"
 	"encoding/json"
 	"fmt"
 	"math"
@@ -40,10 +41,10 @@ type c10Case struct {
 
 func (p *c10) Bounds(tier string) map[string]interface{} {
 	return map[string]interface{}{
-		"targets":      c10Targets,
-		"source_kinds": c10Kinds,
-		"values":       "per source kind: type min/max and +-1, 0, +-1, 127/128, 255/256, 2^15, 2^16, 2^31, 2^32, 2^53, 2^63, 2^64 neighbours that the kind can hold; floats add -0.0, +-0.5, +-3.7, 1e20, 1e300, Inf, NaN; strings render each integer boundary plus sign/space/leading-zero/fraction/exponent/hex/non-numeric forms",
-		"lists":        "every scalar value as a 1- and 2-element typed slice and as []interface{} mixed with a small in-range element",
+		"targets":        c10Targets,
+		"source_kinds":   c10Kinds,
+		"values":         "per source kind: type min/max and +-1, 0, +-1, 127/128, 255/256, 2^15, 2^16, 2^31, 2^32, 2^53, 2^63, 2^64 neighbours that the kind can hold; floats add -0.0, +-0.5, +-3.7, 1e20, 1e300, Inf, NaN; strings render each integer boundary plus sign/space/leading-zero/fraction/exponent/hex/non-numeric forms",
+		"lists":          "every scalar value as a 1- and 2-element typed slice and as []interface{} mixed with a small in-range element",
 		"quick=thorough": true,
 	}
 }
@@ -428,6 +429,16 @@ func checkScalar(target string, s srcVal, got interface{}, str string) (symptom,
 		}
 		if src, isBytes := s.v.([]byte); isBytes && !bytes.Equal(src, b) {
 			return "different-bytes", fmt.Sprintf("%v -> %v", src, b)
+		}
+		if s.txt != nil {
+			// text is the base64 form (RFC 7950 9.8.2): reading the value back gives the bytes it encodes
+			want, err := base64.StdEncoding.DecodeString(*s.txt)
+			if err != nil {
+				return "text-that-is-not-base64-accepted", fmt.Sprintf("source %s accepted, reads back as %v", s.lbl, b)
+			}
+			if !bytes.Equal(want, b) {
+				return "different-bytes", fmt.Sprintf("source %s reads back as %v, it encodes %v", s.lbl, b, want)
+			}
 		}
 	}
 	return "", ""
